@@ -743,8 +743,12 @@ class C08Session:
             q = cl[(b // len(cl) + 1 + b) % len(cl)]
             if p is q:
                 q = cl[(cl.index(p) + 1) % len(cl)]
-            if perms and (b // 3) % 3 == 0:
-                p = perms[-1][1]   # chain onto the previous transposition
+            if perms and (b // 3) % 3 == 0 and \
+                    self.key_of(perms[-1][1]) == self.key_of(cl[0]):
+                # chain onto the previous transposition (same space and spin only: a
+                # transposition across spaces can annihilate a delta irreversibly, so the
+                # step-by-step result is not defined by the composed permutation)
+                p = perms[-1][1]
                 if p is q:
                     q = cl[(cl.index(p) + 1) % len(cl)] if p in cl else cl[0]
             perms.append((p, q))
